@@ -626,10 +626,10 @@ func TestCheck(t *testing.T) {
 		{I: 1, M: 2, Consumer: "prompt", Clients: [][]opSpec{{A(1), idle(A(1)), idle(ADV(2))}, {after(A(1), 2)}, {after(ADV(1), 2)}}},
 		{I: 2, M: 2, Consumer: "prompt", Clients: [][]opSpec{{A(1), idle(ADV(2)), A(1)}, {after(A(1), 1)}, {after(ADV(2), 1)}}},
 	}
-	nStaged := ev.Pick(6, 60)
-	nRandProg := ev.Pick(75, 1000)
+	nStaged := ev.Pick(6, 50)
+	nRandProg := ev.Pick(75, 800)
 	nSchedPer := ev.Pick(3, 5)
-	nSeq := ev.Pick(40, 600)
+	nSeq := ev.Pick(40, 500)
 	inconcl, nSeqRun := 0, 0
 	run := func(p program, seed int64) {
 		if p.Prefix == nil {
